@@ -192,7 +192,7 @@ def main(run):
     cov = {
         "evaluations": ncases,
         "distinct_nontrivial": len(distinct),
-        "rule": ("%d src/dest pairs (the 25 corpus pairs + random pairs of harness/mapgen.py, as in C05); for the root type and "
+        "rule": ("%d src/dest pairs (the 28 corpus pairs + random pairs of harness/mapgen.py, as in C05); for the root type and "
                  "every inner mapped type, in each generated direction: all 2^k assignments of nil/non-nil to the k nil-able "
                  "positions of the input (pointers, embedded pointers at depth 1 and 2, slices, maps, the first two elements of "
                  "slices of pointers/structs, recursively through sub-structs) when k <= 6, otherwise none/all/each single/each "
